@@ -5,6 +5,27 @@ props={json.loads(l)['id']:json.loads(l) for l in open('/verif/properties.jsonl'
 # id -> (technique, level text, level note, design ref)
 CLAIMED={
 
+ 'C06':("exhaustive enumeration of bounded value and text spaces through the real printer and reader, compared by an independent structural equality",
+        "Every string of <=3/<=4 characters over 19 escaping-relevant characters in 7 contexts (plus raw-form variants), every symbol/keyword spelling of <=3 identifier characters, every nested value up to the weight bound and every accepted float-free token text (838 k quick / 25 M thorough) is printed by the real printer and read back by the real reader and by read-string/pr-str; the result must equal the original under the model's own equality.",
+        "Valid UTF-8 only; symbol spellings limited to the scanner's one-token identifier rule (transcribed); NUL is a recorded known finding (external scanner).",
+        "DESIGN.md §4 C06"),
+ 'C13':("exhaustive enumeration of builtin x argument tuples and depth-2 compositions against a three-valued abstract collection model",
+        "45 builtins x every argument tuple of each documented arity over 23 values (171 k calls) and 1.75 M depth-2 compositions are evaluated through the real EVAL and compared with a model of ordered sequences / string-keyed maps / string sets that says, per input, exact value (with kind), any-order value, must-error, error-or-nil or unspecified. Vectors are passed as literals so they carry the spare capacity real programs have.",
+        "The model (internal/model/coll.go) transcribes README + tests/step*.mal; what they leave open is unspecified and accepts any non-panicking outcome; wrong argument counts are not generated.",
+        "DESIGN.md §4 C13, Appendix B"),
+ 'C14':("exhaustive enumeration of all ordered pairs (and class-local triples) of bounded data values against independent structural equality",
+        "All ordered pairs over all 486 (quick) / 2969 (thorough, 8.8 M pairs) data values up to the weight bound — with near-misses built in: maps differing only in key set with nil values, same spelling as string/keyword/symbol, ()/[]/nil/false/0/{}/#{} — are compared through the real = with the model's equality, with b also rebuilt along a second construction path; reflexivity, symmetry and transitivity are checked on the implementation's own answers.",
+        "Values above the weight bound; keys over three spellings.",
+        "DESIGN.md §4 C14"),
+ 'C15':("exhaustive enumeration of templates x names x value assignments through AddPreamble/READWithPreamble, expected AST computed by substitution on the model ADT",
+        "26 source templates (placeholders in code, quoted data, nested collections, map values, reader macros, next to placeholder-looking text in strings, raw strings and comments, undefined names) x name pairs x every assignment of 49 data values (multi-line JSON text, preamble-looking strings, CR/LF, U+029E, nested collections) to one or two names; for every preamble line order the re-read AST must be identical to the template with values substituted, and to Read_str(src, values).",
+        "Values are those C06 shows readable; templates do not start with their own ';; $' line.",
+        "DESIGN.md §4 C15"),
+ 'C16':("exhaustive enumeration of well-formed expressions, all token-boundary cuts and closer mutations, judged by an independent bracket-stack recogniser",
+        "Every well-formed expression up to the weight bound (55 k quick / 1.6 M thorough) over all four bracket kinds, quote prefix, strings/raw strings/comments containing bracket characters is cut after every token, extended by every closer, has its last closer replaced and a second expression appended; an independent recogniser decides which cuts are completable by closers and the innermost closer; READ's error and the REPL's real multiLine verdict (test-only export via overlay) must match.",
+        "Token-boundary cuts only; cuts ending in a prefix macro / odd map / non-string key are outside the property.",
+        "DESIGN.md §4 C16"),
+
  'C01':("exhaustive enumeration of all core-form programs up to a weight bound, each run on the real EVAL and compared with an independent definitional interpreter",
         "All 1.76 M programs of weight <=5 (quick) / 47 M of weight <=6 plus 63 M closure/recursion programs (thorough) over the core special forms are evaluated by the real EVAL in a fresh scope and by a definitional interpreter written from the mal definition; value, error-vs-value, thrown payload, ordered effect trace and final bindings must agree. Small-scope exhaustiveness is the right level: the semantics is compositional and every rule interaction (scope, branch selection, argument order, rest parameters) already occurs within 5-6 nodes.",
         "The definitional interpreter (harness/internal/model/interp.go) is the specification; error messages are not compared; programs above the weight bound are not covered.",
